@@ -377,6 +377,7 @@ def header_serde_shape(ctx, prog):
     from replay import run_replay
     name = 'JwsHeader+JwtHeader/members-read-by-the-derived-deserialiser'
     helpers = [g.name for g in prog.funcs if re.search(r'(jws|jwt)/header\.rs[^>]*>::deserialize::.*visit_(map|seq)::<impl at [^>]*>::deserialize$', g.name)]
+    helpers += [g.name for g in prog.funcs if re.match(r'\w+$', g.name) and re.search(r'Deserializer<.*>>::Error>', g.ret_ty or '')]
     derives = [g.name for g in prog.funcs if re.search(r'<impl at [^>]*(jws|jwt)/header\.rs[^>]*>::deserialize$', g.name)]
     if not derives:
         ctx.add(Ob(name, 'M', INCONCLUSIVE, detail='no derived Deserialize found for the header types'))
